@@ -33,7 +33,8 @@ def scratch_copy():
 def run_check(prop, repo, tier='quick', seed='1'):
     # evidence of runs against a modified tree must not overwrite the real evidence files
     env = dict(os.environ, VERIF_REPO=repo, VERIF_SEED=seed,
-               VERIF_EVIDENCE_DIR=os.path.join(repo, 'evidence'))
+               VERIF_EVIDENCE_DIR=os.path.join(repo, 'evidence'),
+               VERIF_OUT_DIR=os.environ.get('VERIF_MUT_OUT', os.path.join(ROOT, 'out', 'mutants')))
     t0 = time.time()
     p = subprocess.run([os.path.join(ROOT, 'check'), prop, '--tier', tier], env=env,
                        capture_output=True, text=True)
